@@ -64,7 +64,7 @@ class C06(E1Check):
         return super().configs() + wide_configs(("mem", "csv"), D=2 if self.tier == "quick" else 3) + extra
 
     def budget(self):
-        return 600 if self.tier == "quick" else 2400
+        return 600 if self.tier == "quick" else 1200
 
     def op_list(self, cfg):
         # PF is dated after the virtual clock: a point without a time (P6, stamped "now") is then out of order
